@@ -369,10 +369,17 @@ def main():
     u = Unit("C38_contracts")
     n = int(param("cases", 36))
     strat = MG.strategies("c38")
+    import time
+    t0 = time.time()
     cases = MG.collect_cases(strat, n, SEED)
+    t1 = time.time()
     MG.prebuild([c["prog"] for c in cases], ROOT, JOBS)
+    t2 = time.time()
     run_hypothesis(u, "gen", strat, check_case, max_examples=n)
     MG.flush_known(u, "gen")
+    u.note("phases: generate %.0f s, mfront + g++ (parallel, cached) %.0f s, probe + oracle %.0f s" % (
+        t1 - t0, t2 - t1, time.time() - t2))
+    print(u.notes[-1], flush=True)
     try:
         from verifpy import prune_cache
         prune_cache()
